@@ -113,6 +113,44 @@ func OracleC22(c *Cluster) (string, string) {
 			fmt.Sprintf("ProposeCommand for %s (region %d, store %d, request id %d) returned success carrying the result %q of a different command\n%s",
 				call.Spec.Tag, call.Spec.Region, call.Store, myID, e, c.describeCalls())
 	}
+	// committed prefixes of the replicas' raft logs agree: the same entry at the same index
+	// up to the smaller applied index (this is "the same sequence of committed commands"
+	// position by position, also where one of the replicas holds a no-op)
+	for r := 1; r <= c.sc.Regions; r++ {
+		type plog struct {
+			id      uint64
+			applied uint64
+			ents    map[uint64]string
+		}
+		var logs []plog
+		for _, id := range c.pids {
+			if regionOf(id) != r {
+				continue
+			}
+			ents, _, err := c.peers[id].VerifLog()
+			if err != nil {
+				continue
+			}
+			pl := plog{id: id, applied: c.peers[id].Status().Applied, ents: map[uint64]string{}}
+			for _, e := range ents {
+				pl.ents[e.Index] = fmt.Sprintf("term%d:%s", e.Term, strings.Join(entryCmdTags(e), ","))
+			}
+			logs = append(logs, pl)
+		}
+		for i := 0; i < len(logs); i++ {
+			for j := i + 1; j < len(logs); j++ {
+				a, b := logs[i], logs[j]
+				for idx := uint64(1); idx <= min(a.applied, b.applied); idx++ {
+					ea, oka := a.ents[idx]
+					eb, okb := b.ents[idx]
+					if oka && okb && ea != eb {
+						return fmt.Sprintf("committed-log-divergence region=%d", r),
+							fmt.Sprintf("peers %d and %d have both applied index %d but hold different entries there (%s vs %s)\n%s", a.id, b.id, idx, ea, eb, c.describeCalls())
+					}
+				}
+			}
+		}
+	}
 	// identical sequences
 	for r := 1; r <= c.sc.Regions; r++ {
 		var lists [NumStores + 1][]appliedRec
